@@ -14,8 +14,10 @@ const TAU_REFINE: f64 = 1e-11;
 const TAU_PLAIN: f64 = 1e-6;
 /// closed forms (degree <= 3) unrefined: worst observed 2.3e-8 (near-triple-root cubic, Cardano cancellation) over 15M cases
 const TAU_CLOSED: f64 = 1e-5;
-/// one-to-one matching tolerance for well-separated prescribed roots; worst observed 2e-10
-const MATCH_TOL: f64 = 1e-6;
+/// one-to-one matching tolerance for well-separated prescribed roots; worst observed 1.9e-11
+const MATCH_TOL: f64 = 1e-8;
+/// closed forms: |sum of values + a_(n-1)/a_n| <= VIETA_TOL * (sum|values| + |a_(n-1)/a_n|)
+const VIETA_TOL: f64 = 1e-10;
 /// statistic only: survey on the repaired tree (25M polynomials): every unpolished failure has a root >= 8.8x larger than a
 /// later-found root deflated first, but passing cases with ratio < 3 reach 9.8e-7, i.e. the error tail is continuous.
 const D11_RATIO: f64 = 3.0;
@@ -109,6 +111,9 @@ fn laguer_replica_inner(a: &[Cmplx], x: &mut Cmplx) -> bool {
         let abm = gm.abs();
         if abp < abm {
             gp = gm;
+        }
+        if !(abp.is_finite() && abm.is_finite()) {
+            return false;
         }
         let dx = if f64::max(abp, abm) > 0.0 { Cmplx::new(m as f64, 0.0) / gp } else { Cmplx::polar(1.0 + abx, iter as f64) };
         if !(dx.real.is_finite() && dx.imag.is_finite()) {
@@ -267,10 +272,11 @@ fn gen_from_roots(src: &mut Src, degree: usize, real: bool) -> Gen {
         }
     }
     // well separated: all |r_i - r_j| >= 0.25*scale and all |r_i| in [0.25, 4]*scale or exactly... (no zero roots)
-    let mut sep = degree <= 6 && !special;
+    // (a single root at zero is fine; repeated / clustered roots fail the pairwise-distance test)
+    let mut sep = degree <= 6;
     for i in 0..roots.len() {
         let m = cabs(roots[i]);
-        if m < 0.25 * scale || m > 4.0 * scale {
+        if m > 4.0 * scale {
             sep = false;
         }
         for j in 0..i {
@@ -381,6 +387,28 @@ fn run(case: &mut Case) -> Result<Outcome, String> {
             }
         }
     }
+    // closed forms (degree 2, 3): the values must be ALL the roots - their sum is -a_{n-1}/a_n (Vieta); this
+    // holds to rounding for the quadratic and Cardano formulas even when individual roots are ill-conditioned
+    let certified_separated = g.well_separated || (degree == 2 && {
+        // |z1 - z2| = |sqrt(b^2 - 4ac)| / |a| against the root magnitudes
+        let (a, b, c) = (coef[2], coef[1], coef[0]);
+        let disc = crate::refla::csub(crate::refla::cmul(b, b), crate::refla::cmul((4.0 * a.0, 4.0 * a.1), c));
+        let sepd = cabs(disc).sqrt() / cabs(a);
+        let size = cabs(b) / cabs(a) + (cabs(c) / cabs(a)).sqrt();
+        sepd >= 0.25 * size && size > 0.0
+    });
+    if failure.is_none() && (degree == 2 || degree == 3) && certified_separated {
+        let s = got.iter().fold((0.0, 0.0), |acc, z| (acc.0 + z.real, acc.1 + z.imag));
+        let e = crate::refla::cdiv(coef[degree - 1], coef[degree]);
+        let mag = got.iter().map(|z| cabs((z.real, z.imag))).sum::<f64>() + cabs(e);
+        let err = cabs((s.0 + e.0, s.1 + e.1));
+        if mag > 0.0 {
+            crate::calib::note("c10 vieta-sum err/mag (deg<=3)", err / mag, || format!("deg {} refine {} {:?}", degree, refine, coef));
+        }
+        if !(err <= VIETA_TOL * mag + 1e-300) {
+            failure = Some(format!("the returned values are not all the roots: their sum {:?} differs from -a_(n-1)/a_n = ({:e}, {:e}) (values: {:?})", s, -e.0, -e.1, got));
+        }
+    }
     if failure.is_none() && g.well_separated {
         if let Some(pr) = &g.prescribed {
             // one-to-one matching (greedy is exact here: tolerance << separation)
@@ -447,7 +475,7 @@ impl Prop for C10 {
          {real, conjugate pair, purely imaginary pair, zero with multiplicity 1..3, repeat of the previous root, cluster at distance 1e-3..1e-1, small integers, magnitudes 0.1..3} times a scale 1e-2..1e2, \
          leading coefficient of either sign / any phase and magnitude 1e-3..1e3; 2/5 random coefficients of mixed sign with magnitude ratio up to 1e6 and a menu that zeroes the constant and inner coefficients. \
          Oracle: exactly n finite values, each with |p(z)| (Horner in complex double-double on the actual f64 coefficients) <= tau*max|a_k|*max(1,|z|)^n, tau = 1e-11 refined / 1e-6 unrefined Laguerre path / 1e-5 unrefined closed forms (degree <= 3); \
-         for prescribed roots with pairwise separation >= 0.25*scale, magnitudes within [0.25,4]*scale and degree <= 6 a one-to-one matching within 1e-6*(1+|r|); degree 0 must panic. \
+         for prescribed roots with pairwise separation >= 0.25*scale, magnitudes <= 4*scale and degree <= 6 a one-to-one matching within 1e-8*(1+|r|); for degree 2 and 3 with certified well-separated roots (prescribed, or |z1-z2| >= 0.25(|b/a|+sqrt|c/a|) from the discriminant) the sum of the values equals -a_(n-1)/a_n within 1e-10 relative (all roots present); degree 0 must panic. \
          A failing case is attributed to a known finding only if a bit-exact replica of the Laguerre/deflation driver reproduces the library's output AND (D7) some Laguerre call fails to converge (budget exhausted or stops at a non-root of the polynomial it was given), or (D11) refine = false, degree >= 4 and all Laguerre calls converged on their deflated polynomials (unpolished forward deflation). Closed-form results (degree <= 3, unrefined) and any output the replica does not reproduce are always judged. \
          Non-trivial: degree >= 4, or a zero/repeated/clustered root, or a vanishing non-leading coefficient. distinct = distinct decoded choice sequence."
             .into()
